@@ -40,7 +40,7 @@ Proof.
   intros X v m [HR HL]. destruct_tuples. unfold lastrow4 in HL. injection HL; intros; subst.
   unfold t2r3 in HR. so3_facts HR.
   autounfold with smgen smlin. sm_simpl.
-  tuple_eq ltac:(nsatz).
+  tuple_eq ltac:(timeout 200 nsatz).   (* ~5 s per entry; bounded so that a broken trace fails quickly *)
 Qed.
 Print Assumptions C20_se3_cross_equivariant.
 
